@@ -18,6 +18,7 @@ META = {
     ],
 }
 META["explanation"] += " " + "(PROG) every cursor-controlled loop of the parser, UnEscape, the string utilities and the number scanner makes progress: E-ZONE with ghost copies of cursor and bound taken at the start of each iteration proves, on every CFG edge back to the loop head (back edge and every continue), that bound - cursor dropped by at least one; a path on which provably neither changed is a violation; loops outside the difference-bound domain (parseObject/parseArray member loops, whose progress is a callee's, flag-driven loops, divisions) are listed in the evidence as not decided."
+META["explanation"] += " " + '(O14-target, shared with C16) the containers the parser fills never run a destructor on a parameter, a local or an ordinary member in place.'
 
 KEYS = [
     "Qentem::JSON::JSONParser::Parse", "Qentem::JSON::JSONParser::parseValue",
